@@ -6,7 +6,7 @@
 // time.Now / math/rand / go statements / select in those packages.  It writes a Gallina file
 // (coq/gen/MapRanges.v).  The translator is deliberately dumb: it transcribes, it does not decide.
 // The decision (is this site covered by a theorem, does the classification agree with the
-// hand-maintained table) is taken inside Rocq by Determ/Table.v.
+// hand-maintained table) is taken inside Rocq by Determ/ProofsTable.v.
 //
 // Type information comes from the standard library only: go/parser + go/types, with imports
 // resolved from the export data `go list -export -deps` reports (the build cache), so nothing is
